@@ -11,6 +11,7 @@ import DtailModel.Model.Hex
 import DtailModel.Model.Wire
 import DtailModel.Model.Grep
 import DtailModel.Model.Discovery
+import DtailModel.Model.Color
 open Dtail
 
 structure Res where
@@ -157,6 +158,40 @@ def opC18File : List String → Res
     | _, _ => bad
   | _ => bad
 
+/-! C16 -/
+
+def c16tags (msg : Bytes) : String :=
+  let n := (splitOnByte PIPE msg).length
+  joinWith "," ((if hasPrefix (b!"REMOTE") msg then [s!"remote{min n 7}"] else [])
+    ++ (if hasPrefix (b!"CLIENT") msg then [s!"client{min n 4}"] else [])
+    ++ (if hasPrefix (b!"SERVER") msg then [s!"server{min n 4}"] else [])
+    ++ (if msg.contains 27 then ["esc"] else []) ++ (if msg.getLast? = some NL then ["nl"] else [])
+    ++ (if msg.isEmpty then ["empty"] else []) ++ (if isHidden msg then ["hidden"] else [])
+    ++ (if (paintSeverity defaultTbl ((splitN PIPE 6 msg).getLast?.getD [])).isSome then ["severity"] else []))
+
+def opC16Colorfy : List String → Res
+  | [h] => match unhex h with
+    | some msg =>
+      let r := hexOf (render (colorfy defaultTbl msg)) ++ ";same"
+      { m := r, s := r, t := c16tags msg }
+    | none => bad
+  | _ => bad
+
+def opC16Write : List String → Res
+  | [kind, color, _chunk, st] => match unhex st with
+    | some bs =>
+      if kind = "health" then
+        let r := if (healthFeed bs).ok then "status=0" else "status=2"
+        { m := r, s := r, t := if (healthFeed bs).ok then "ok" else "-" }
+      else
+        let msgs := if kind = "mapr" then (maprFeed bs).shown else (clientFeed ⟨[], []⟩ bs).msgs
+        let out := if color = "1" then render (printedColored defaultTbl msgs) else printed msgs
+        let r := hexOf out ++ ";same"
+        { m := r, s := r,
+          t := joinWith "," ((msgs.map c16tags).filter (· ≠ "")) }
+    | none => bad
+  | _ => bad
+
 def dispatch (line : String) : Res :=
   match (line.splitOn " ").filter (· ≠ "") with
   | "c01.reader" :: a => opC01Reader a
@@ -164,6 +199,8 @@ def dispatch (line : String) : Res :=
   | "c01.e2e" :: a => opC01E2E a
   | "c03.grep" :: a => opC03Grep a
   | "c03.e2e" :: a => opC03E2E a
+  | "c16.colorfy" :: a => opC16Colorfy a
+  | "c16.write" :: a => opC16Write a
   | "c18.list" :: a => opC18List a
   | "c18.file" :: a => opC18File a
   | _ => bad
